@@ -29,7 +29,7 @@ Lemma line_ok_all : decode_clean -> forall l, line_ok vt decode l = true.
 Proof.
   intros Hc l. unfold line_ok. destruct (parse_msg vt (decode l)) as [[m|]|e] eqn:E; [|reflexivity|].
   - exact (echo_ok_of_encodable vt (decode l) m (Hc l) E).
-  - exact (parse_msg_guarded vt (decode l) e E).
+  - rewrite (parse_msg_guarded vt (decode l) e E), guard_quiet. reflexivity.
 Qed.
 
 Lemma dom_all : decode_clean -> forall rvs buf, recv_ok rvs = true -> dom vt decode rvs buf = true.
